@@ -572,6 +572,11 @@ def check_c12(model, rep, tier):
     from .sources import r_arch_table
     r_arch_table(model, rep, rule_id="R-ADD-REFUSALS")
     r_keys(model, rep)
+    # the canonical key of an RPM is assembled from what parse_nvra hands back (epoch default included): its glue code and the
+    # parse proof are part of "filed under the key the arguments say"
+    from .regexes import r_nvra_glue, r_nvra_parse
+    r_nvra_glue(model, rep)
+    r_nvra_parse(model, rep, tier)
     from .regexes import r_nevra_format
     r_nevra_format(model, rep)
     r_uid_parse(model, rep)
